@@ -135,25 +135,7 @@ func checkC20(r *Run) {
 			r.Check(ok, "C20-R2", "Validator.MarshalJSON/all-fields", P.InstrPos(c), t, "MarshalJSON encodes "+t+" ; every field must come from its namesake")
 		}
 	}
-	if f := r.fn("(*x/pos/types.Validator).UnmarshalJSON"); f != nil {
-		got := map[string]string{}
-		Instrs(f, func(in ssa.Instruction) {
-			if s, ok2 := in.(*ssa.Store); ok2 {
-				a := P.TermAt(s.Addr, s).String()
-				if strings.HasPrefix(a, "&param:v.") {
-					got[strings.TrimPrefix(a, "&param:v.")] = P.TermAt(s.Val, s).String()
-				}
-			}
-		})
-		for _, fl := range vfields {
-			v := got[fl]
-			ok := strings.HasSuffix(v, "x/pos/types.hexValidator{})."+fl)
-			if fl == "PublicKey" {
-				ok = strings.HasPrefix(v, "crypto.NewPublicKey(") && strings.HasSuffix(v, "x/pos/types.hexValidator{}).PublicKey)#0")
-			}
-			r.Check(ok, "C20-R2", "Validator.UnmarshalJSON/field:"+fl, P.Pos(f.Pos()), v, "UnmarshalJSON restores "+fl+" from "+v+" ; required the decoded hexValidator's "+fl)
-		}
-	}
+	validatorUnmarshalJSON(r, "C20-R2")
 
 	// ------------------------------------------------------------------ R3
 	r.Rule("C20-R3", "ordered and parsable keys: time keys are UTC fixed-width; the power-rank key builder and parser agree; AddressFromKey / GetValidatorSigningInfoAddress strip exactly the one-byte prefix the builders prepend; every key builder appends to a one-byte prefix (len==cap==1 literal); addresses are accepted only at exactly AddrLen bytes", 14)
@@ -305,6 +287,32 @@ func checkPowerRankKey2(r *Run, rule string) {
 			gs := P.Guards(ret, 0)
 			ok2, _ := HasAtom(gs, `^\(len\(param:key\) == \(\(1 \+ 8\) \+ 20\)\)$|^\(\(\(1 \+ 8\) \+ 20\) == len\(param:key\)\)$|^\(29 == len\(param:key\)\)$`)
 			r.Check(ok2, rule, "parseRankKey/length-checked", P.InstrPos(ret), "key length checked", "parser accepts keys under "+strings.Join(atomStrings(gs), " ; "))
+		}
+	}
+}
+
+// validatorUnmarshalJSON: the JSON decoder of Validator (genesis import) restores every field from its namesake
+// (C20-R2, C06-R10, C09-R7).
+func validatorUnmarshalJSON(r *Run, rule string) {
+	P := r.P
+	vfields := []string{"Address", "PublicKey", "Jailed", "Status", "StakedTokens", "UnstakingCompletionTime"}
+	if f := r.fn("(*x/pos/types.Validator).UnmarshalJSON"); f != nil {
+		got := map[string]string{}
+		Instrs(f, func(in ssa.Instruction) {
+			if s, ok2 := in.(*ssa.Store); ok2 {
+				a := P.TermAt(s.Addr, s).String()
+				if strings.HasPrefix(a, "&param:v.") {
+					got[strings.TrimPrefix(a, "&param:v.")] = P.TermAt(s.Val, s).String()
+				}
+			}
+		})
+		for _, fl := range vfields {
+			v := got[fl]
+			ok := strings.HasSuffix(v, "x/pos/types.hexValidator{})."+fl)
+			if fl == "PublicKey" {
+				ok = strings.HasPrefix(v, "crypto.NewPublicKey(") && strings.HasSuffix(v, "x/pos/types.hexValidator{}).PublicKey)#0")
+			}
+			r.Check(ok, rule, "Validator.UnmarshalJSON/field:"+fl, P.Pos(f.Pos()), v, "UnmarshalJSON restores "+fl+" from "+v+" ; required the decoded hexValidator's "+fl)
 		}
 	}
 }
